@@ -1,5 +1,5 @@
 (* C12 — Groups add prefix and middleware to their own routes and leave no residue. Property theorems only. *)
-From Rux Require Import Base Str Norm NormFacts Reg RegFacts Table Sys SysFacts.
+From Rux Require Import Base Str Norm NormFacts Reg RegFacts Table Sys SysFacts Conc RegHeap RegHeapFacts.
 
 (* For every registration program (arbitrarily nested groups, Use anywhere, routes with variadic and later
    middleware) that registration accepts: the registered routes are exactly the lexically scoped ones —
@@ -43,6 +43,30 @@ Proof. exact sys_build_routes. Qed.
 Theorem C12_router_globals : forall o ss s, sys_build o ss = Ok s -> s_globals s = den_globals ss.
 Proof. exact sys_build_globals. Qed.
 
+(* the same registration on a SLICE HEAP (Go's append writes in place into spare capacity of the shared backing array; Group saves
+   and restores slice headers; combineHandlers copies into a fresh array; caller argument lists may carry spare capacity
+   `extra`; any growth policy `grow`): it computes exactly what the list-level model computes - no in-place append ever
+   disturbs a route's middleware, a saved group slice or the global middleware - and panics exactly when it does *)
+Theorem C12_heap_refines : forall grow extra strict ss,
+  (forall st', exec_block strict ss rinit = Ok st' ->
+     exists hs', hexec_block true grow extra strict ss hinit = Ok hs' /\ abs hs' = st') /\
+  (exec_block strict ss rinit = Panic -> hexec_block true grow extra strict ss hinit = Panic).
+Proof. exact hexec_refines. Qed.
+(* hence the middleware read from the heap for every route is the lexically scoped one *)
+Theorem C12_heap_routes : forall grow extra strict ss hs', hexec_block true grow extra strict ss hinit = Ok hs' ->
+  map (abs_route (h_heap hs')) (h_routes hs') = den_block strict [] [] ss.
+Proof. exact hexec_routes_den_heap. Qed.
+(* the classic aliasing defect (combineHandlers returning its first argument uncopied when the second is empty) is refuted on
+   this model: two sibling routes end up with the second route's middleware *)
+Theorem C12_legacy_aliasing_refuted :
+  match hexec_block false 2 0 true alias_prog hinit, exec_block true alias_prog rinit with
+  | Ok hs', Ok st' =>
+      map r_handlers (r_routes st') = [[1; 2; 10]; [1; 2; 20]] /\
+      map r_handlers (r_routes (abs hs')) = [[1; 2; 20]; [1; 2; 20]]
+  | _, _ => False
+  end.
+Proof. exact legacy_aliasing_refuted. Qed.
+
 Print Assumptions C12_scoping.
 Print Assumptions C12_restore.
 Print Assumptions C12_program.
@@ -50,3 +74,6 @@ Print Assumptions C12_use_local.
 Print Assumptions C12_sibling_unaffected.
 Print Assumptions C12_router_routes.
 Print Assumptions C12_router_globals.
+Print Assumptions C12_heap_refines.
+Print Assumptions C12_heap_routes.
+Print Assumptions C12_legacy_aliasing_refuted.
